@@ -225,10 +225,23 @@ def end_to_end(ctx):
                 ns = e.stage.emu.namespace(prov)
                 ns.mkdir(e.CLOUD_ROOT + '/1999.01.01')
                 ns.put_file(e.CLOUD_ROOT + '/1999.01.01/1999.01.01-00:00:00.tar.gpg', b'an old cloud backup')
+                stray = (idx + page + ctx.seed) % 2 == 1
+                if stray:
+                    # an unexpected object inside the old cloud group: the listing is not clean, nothing may be deleted
+                    ns.put_file(e.CLOUD_ROOT + '/1999.01.01/README.txt', b'not a backup')
                 uc.emu.pe.save_namespace(e.stage.dir, ns)
                 e.stage.emu.reload()
                 o1 = e.upload()
-                case = {'provider': prov, 'page_size': page}
+                case = {'provider': prov, 'page_size': page, 'stray_cloud_entry': stray}
+                if stray:
+                    stats['runs'] += 1
+                    stats['stray'] = stats.get('stray', 0) + 1
+                    if not any('unexpected' in x for x in o1['run'].errors()):
+                        ctx.violation('property', 'an unexpected object in a cloud group is not reported [%s]' % prov, {'case': case})
+                    if not any(k.startswith('1999.01.01/1999.01.01-') for k in o1['cloud']):
+                        ctx.violation('property', 'the cloud group 1999.01.01 was deleted although the cloud listing reported an error (unexpected object in it) [%s, page size %d]'
+                                      % (prov, page), {'case': case})
+                    continue
                 stats['runs'] += 1
                 if o1['run'].errors():
                     ctx.violation('property', 'vsb upload reports errors without any fault [%s, page size %d]: %s' % (prov, page, o1['run'].errors()[:2]), {'case': case})
